@@ -25,9 +25,9 @@ CHECKS = {
             "bounds: 3 keys, pre-history <=2-3 ops, staging <=4-6 ops incl. overflow of DataFileSize mid-way", "DESIGN.md §6 C05"),
  "C06": seq("operation sequences with Merge (both scan orders) and restarts: reference-map oracle after every step (live, after adoption, after later restarts); after adoption the merge directory is gone and merged files hold exactly the live records, once, no tombstones; fault injection: each I/O call of Merge fails once",
             "sequential part + fault injection (one fault per run) + SCHED scenarios Merge || 1-2 writer calls (all schedules up to the preemption bound)", "DESIGN.md §6 C06"),
- "C07": ("crash", "exhaustive enumeration of crash instants of Merge and of the adopting Open, nested (the recovery itself is crashed at each of its I/O events), plus all subsets of partially executed remove-all",
-            "every history within the bound + Merge / Merge+adopting restart: crash image after every I/O event, each recovered with the real Open and compared with the acknowledged mapping, recursively to nesting depth 2-3",
-            "process death only; file-system calls atomic and durable in order; Standard I/O", "DESIGN.md §6 C07"),
+ "C07": ("crash", "exhaustive enumeration of crash instants of Merge and of the adopting Open, nested (the recovery itself is crashed at each of its I/O events), plus all subsets of partially executed remove-all; plus schedule x crash exploration: every interleaving of Merge with one writer under the controlled scheduler, a crash image after every I/O call and every power-loss cut",
+            "every history within the bound + Merge / Merge+adopting restart: crash image after every I/O event, each recovered with the real Open and compared with the acknowledged mapping, recursively to nesting depth 2-3; Merge || {Put, Delete, batch, overflowing batch}: all schedules x all crash points x tail cuts x nested recovery crashes",
+            "sequential levels: process death only, file-system calls atomic and durable in order; Standard I/O and MMap", "DESIGN.md §6 C07"),
  "C18": seq("operation sequences over varint-like / long keys, each followed by Merge (both scan orders): every hint entry is checked against the record decoded at its position; hinted keys = stored keys = live keys; differential hint-path Open vs scan-path Open (index entries, values, KeyNum)",
             "differential open on Standard I/O", "DESIGN.md §6 C18"),
  "C08": ("sched", "stateless model checking of the implementation: controlled cooperative scheduler (in a -race build whose baton hand-off is invisible to the race detector), preemption-bounded DFS over all interleavings at lock/atomic granularity; porcupine linearizability check per schedule; conflicting unsynchronised accesses between the calls of a schedule are reported as well",
